@@ -71,6 +71,9 @@ func (s accStats) note(c *Ctx, op, name, ans string) {
 		c.Fail("unmodelled:"+name, op, "accessor "+name+" has a signature the harness does not know")
 	case strings.HasPrefix(ans, "ok"):
 		c.Hit("ok")
+		if strings.HasPrefix(name, "M.As") || strings.HasPrefix(name, "M.To") {
+			c.Hit("ok:" + name[2:])
+		}
 	case strings.HasPrefix(ans, "err:parse"):
 		c.Hit("err:parse")
 	case strings.HasPrefix(ans, "err:nil"):
